@@ -240,7 +240,7 @@ where
         x[col] -= h;
         let below = f(x.as_slice());
         x[col] += h;
-        let jac_col = (above + below) * denom;
+        let jac_col = (above - below) * denom;
         for row in 0..mat.column(0).len() {
             mat[(row, col)] = jac_col[row];
         }
